@@ -15,6 +15,8 @@ import random
 import warnings
 from fractions import Fraction
 
+import shutil
+import os
 import numpy as np
 
 from . import common
@@ -852,8 +854,76 @@ def check_line(ctx, what, case, info, out):
         ctx.count("dither_negative_coeff_model_%s_impl_%s" % (out, info["got"]))
 
 
+class _UserArray(np.ndarray):
+    """a caller's own ndarray subclass (units, metadata, ...): still an array of samples"""
+
+
+def special_inputs_phase(ctx):
+    """inputs and object histories a random generator does not produce: arrays that are ndarray SUBCLASSES (a user's own
+    class, a copy-on-write / read-only `np.memmap`) with `in_place` left False - the input must stay untouched and the result
+    is the documented transform; and pre-processors whose documented `coeff` attribute is re-assigned after construction"""
+    import tempfile
+
+    P = impl()
+    rs = np.random.RandomState(1801)
+    base = np.round(rs.randn(64) * 8) / 4          # dyadic values: the recurrence is exact in float64
+    tmpd = tempfile.mkdtemp(prefix="pds_c18_", dir="/tmp")
+    try:
+        path = os.path.join(tmpd, "sig.f64")
+        base.tofile(path)
+        inputs = [("ndarray subclass", lambda: base.copy().view(_UserArray)),
+                  ("memmap mode c", lambda: np.memmap(path, dtype=np.float64, mode="c")),
+                  ("memmap mode r", lambda: np.memmap(path, dtype=np.float64, mode="r"))]
+        for label, mk in inputs:
+            for opname, obj in (("pre", P.Preemphasize(0.5)), ("dither", P.Dither(0.0))):
+                case = dict(op=opname + "_special_input", input=label, coeff=obj.coeff, in_place=False, n=len(base))
+                ctx.case(case, kind="special_input:" + opname)
+                x = mk()
+                try:
+                    with warnings.catch_warnings():
+                        warnings.simplefilter("ignore")
+                        y = np.asarray(obj.apply(x))
+                except Exception as e:
+                    ctx.violation(case, "a result", "%s: %s" % (type(e).__name__, e), "apply(x) with in_place left False returns for every array of samples",
+                                  tags=dict(op=opname, clause="raises"))
+                    continue
+                want = base.copy()
+                if opname == "pre":
+                    want[1:] = base[1:] - 0.5 * base[:-1]
+                if not np.array_equal(np.asarray(x), base) or not np.array_equal(np.fromfile(path, dtype=np.float64), base):
+                    ctx.violation(case, "input (and the file behind it) unchanged", "modified", "without in_place the input is left untouched",
+                                  tags=dict(op=opname, clause="input_untouched"))
+                if y.shape != want.shape or not np.array_equal(y, want):
+                    ctx.violation(case, want[:6].tolist(), y[:6].tolist() if y.shape == want.shape else list(y.shape),
+                                  "y[0]=x[0], y[i]=x[i]-coeff*x[i-1]" if opname == "pre" else "coeff 0: the signal itself",
+                                  tags=dict(op=opname, clause="value"))
+    finally:
+        shutil.rmtree(tmpd, ignore_errors=True)
+    # `coeff` is a documented public attribute: an object whose coeff was re-assigned IS the pre-processor with the new value
+    for c0, c1 in ((0.97, 0.5), (0.5, 0.0), (0.0, 0.25)):
+        p = P.Preemphasize(c0)
+        p.apply(base.copy())
+        p.coeff = c1
+        case = dict(op="pre_retuned", built_with=c0, coeff=c1, n=len(base))
+        ctx.case(case, kind="retuned:pre")
+        y, want = p.apply(base.copy()), P.Preemphasize(c1).apply(base.copy())
+        if not np.array_equal(y, want):
+            ctx.violation(case, want[:6].tolist(), y[:6].tolist(), "y[i] = x[i] - coeff*x[i-1] with the object's current coeff",
+                          tags=dict(op="pre", clause="value", how="retuned"))
+    d = P.Dither(3.0)
+    d.apply(base.copy())
+    d.coeff = 0.0
+    case = dict(op="dither_retuned", built_with=3.0, coeff=0.0, n=len(base))
+    ctx.case(case, kind="retuned:dither")
+    y = d.apply(base.copy())
+    if not np.array_equal(y, base):
+        ctx.violation(case, base[:6].tolist(), y[:6].tolist(), "with coeff 0 the signal is returned unchanged (the object's current coeff)",
+                      tags=dict(op="dither", clause="value", how="retuned"))
+
+
 def run(ctx, driver):
     lines, pending = [], []
+    special_inputs_phase(ctx)
     for case in generate(ctx):
         if ctx.out_of_time():
             ctx.note("out of time during generation; stopped early")
